@@ -2015,3 +2015,12 @@ FALLBACK.setdefault(r"(^|::)(RwLock|Mutex)::(into_inner|get_mut)$", lambda eng, 
 FALLBACK.setdefault(r" as Clone>::clone$", lambda eng, ctx, f, path, args, dty: clone(load(eng, ctx, args[0])) if not isinstance(load_one(eng, ctx, args[0]), Ptr) or True else args[0])
 FALLBACK.setdefault(r"^((core|std)::panicking::)?(panic|panic_fmt|panic_display|panic_str|panic_explicit|panic_nounwind|panic_cold_explicit|begin_panic|assert_failed|unreachable_display|panic_bounds_check)$|(^|::)(unwrap_failed|expect_failed)$",
                     lambda eng, ctx, f, path, args, dty: Diverge("panic", f"explicit panic in {f.body.name if f is not None else '?'}"))
+
+
+def m_clone_into(eng, ctx, f, path, args, dty):
+    """<str as ToOwned>::clone_into(&self, target: &mut String) / <[T] as ToOwned>::clone_into: the target takes the source's content"""
+    eng.store_ptr(ctx, _strip(eng, ctx, args[1]), clone(load(eng, ctx, args[0])))
+    return UNIT
+
+
+FALLBACK.setdefault(r" as ToOwned>::clone_into$| as Clone>::clone_from$", m_clone_into)
